@@ -207,6 +207,23 @@ func nilGuarded(info *types.Info, root ast.Node, site ast.Node, obj types.Object
 			if x.Op == token.LAND && i+1 < len(chain) && chain[i+1] == ast.Node(x.Y) && hasConj(x.X) {
 				return true
 			}
+			// `obj == nil || obj.f …`: the right operand is evaluated only when the left one is false
+			if x.Op == token.LOR && i+1 < len(chain) && chain[i+1] == ast.Node(x.Y) {
+				var hasDisjL func(e ast.Expr) bool
+				hasDisjL = func(e ast.Expr) bool {
+					e = ast.Unparen(e)
+					if isNilCmp(e, token.EQL) {
+						return true
+					}
+					if be, ok := e.(*ast.BinaryExpr); ok && be.Op == token.LOR {
+						return hasDisjL(be.X) || hasDisjL(be.Y)
+					}
+					return false
+				}
+				if hasDisjL(x.X) {
+					return true
+				}
+			}
 		case *ast.BlockStmt:
 			for _, st := range x.List {
 				if st.End() > site.Pos() {
